@@ -25,6 +25,7 @@ type table struct {
 	Cols   []col
 	Idx    map[string]string // name -> column
 	Checks []string
+	Ref    string // table whose id the column `<Ref>_id` of this table references ("" = no foreign key)
 }
 
 type model struct {
@@ -34,7 +35,7 @@ type model struct {
 func (m *model) clone() *model {
 	n := &model{}
 	for _, t := range m.Tables {
-		c := &table{Name: t.Name, Cols: append([]col(nil), t.Cols...), Idx: map[string]string{}, Checks: append([]string(nil), t.Checks...)}
+		c := &table{Name: t.Name, Cols: append([]col(nil), t.Cols...), Idx: map[string]string{}, Checks: append([]string(nil), t.Checks...), Ref: t.Ref}
 		for k, v := range t.Idx {
 			c.Idx[k] = v
 		}
@@ -73,7 +74,7 @@ func (m *model) canon() string {
 			ix = append(ix, k+"="+v)
 		}
 		sort.Strings(ix)
-		out = append(out, fmt.Sprintf("%s(%s|%s|%s)", t.Name, strings.Join(cs, ","), strings.Join(ix, ","), strings.Join(t.Checks, ",")))
+		out = append(out, fmt.Sprintf("%s(%s|%s|%s|%s)", t.Name, strings.Join(cs, ","), strings.Join(ix, ","), strings.Join(t.Checks, ","), t.Ref))
 	}
 	sort.Strings(out)
 	return strings.Join(out, ";")
@@ -94,6 +95,9 @@ func createSQL(t *table, name string) string {
 	defs = append(defs, "PRIMARY KEY (`id`)")
 	for i, ck := range t.Checks {
 		defs = append(defs, fmt.Sprintf("CONSTRAINT `ck%d` CHECK (%s)", i+1, ck))
+	}
+	if t.Ref != "" {
+		defs = append(defs, fmt.Sprintf("CONSTRAINT `%s_%s` FOREIGN KEY (`%s_id`) REFERENCES `%s` (`id`)", t.Name, t.Ref, t.Ref, t.Ref))
 	}
 	return fmt.Sprintf("CREATE TABLE `%s` (%s)", name, strings.Join(defs, ", "))
 }
@@ -121,6 +125,9 @@ func (m *model) hcl() string {
 		}
 		for i, ck := range t.Checks {
 			fmt.Fprintf(&b, "  check \"ck%d\" {\n    expr = %q\n  }\n", i+1, ck)
+		}
+		if t.Ref != "" {
+			fmt.Fprintf(&b, "  foreign_key \"%s_%s\" {\n    columns = [column.%s_id]\n    ref_columns = [table.%s.column.id]\n  }\n", t.Name, t.Ref, t.Ref, t.Ref)
 		}
 		b.WriteString("}\n")
 	}
@@ -219,6 +226,13 @@ func ops(m *model, k int) (out []struct {
 		name := fmt.Sprintf("x%d", k)
 		n.Tables = append(n.Tables, &table{Name: name, Cols: []col{{"id", "integer", ""}, {"v", "text", ""}}, Idx: map[string]string{}})
 		add(step{Op: "add_table", SQL: []string{createSQL(n.table(name), name)}, ViaDiff: true}, n)
+	}
+	if t != nil && m.table("r") == nil {
+		// add a table whose foreign key references t: the rebuilds of t that follow are rebuilds of a
+		// referenced table (t itself is never dropped for good by an evolution).
+		n := m.clone()
+		n.Tables = append(n.Tables, &table{Name: "r", Cols: []col{{"id", "integer", ""}, {"t_id", "integer", ""}}, Idx: map[string]string{}, Ref: "t"})
+		add(step{Op: "add_table_referencing_t", SQL: []string{createSQL(n.table("r"), "r")}, ViaDiff: true}, n)
 	}
 	if t != nil {
 		// add nullable column
@@ -774,7 +788,7 @@ func Run(r *report.Run) {
 	if r.Tier == "thorough" {
 		depth = 3
 	}
-	r.Rule = fmt.Sprintf("BFS to depth %d over schema evolutions of a two-table SQLite schema (add table, add nullable column, add index, drop column by ALTER, drop column by table rebuild, drop column (by ALTER / by rebuild) and add it back in the same file, drop table, drop table and create it again in the same file, change type by rebuild, add check by rebuild, drop VIRTUAL column, temporary table / temporary column inside one file, a rebuild directly followed by DROP TABLE, two rebuilds in one file, two destructive statements of which one is silenced by atlas:nolint, a table / column dropped, added back and dropped again, files of more than 10 statements ending in DROP TABLE / containing a column-dropping rebuild); every history becomes a migration directory in which the last file is written by hand and, where the evolution can be expressed as a desired schema, also by the real `atlas migrate diff` (earlier files hand-written); x --latest N for every N<=depth (and, for --latest 1, the hand-written file saved with CR LF line endings below 200 comment lines); the line number atlas prints for each diagnostic must be the line its byte position is on; the file-level error of each file report follows the file's own diagnostics; the real `atlas migrate lint` runs against a real SQLite dev database; states de-duplicated by the canonical schema model for expansion; non-trivial = every directory; distinct = (history, producer, N)", depth)
+	r.Rule = fmt.Sprintf("BFS to depth %d over schema evolutions of a two-table SQLite schema (add table, add a table whose foreign key references the table that later files rebuild, add nullable column, add index, drop column by ALTER, drop column by table rebuild, drop column (by ALTER / by rebuild) and add it back in the same file, drop table, drop table and create it again in the same file, change type by rebuild, add check by rebuild, drop VIRTUAL column, temporary table / temporary column inside one file, a rebuild directly followed by DROP TABLE, two rebuilds in one file, two destructive statements of which one is silenced by atlas:nolint, a table / column dropped, added back and dropped again, files of more than 10 statements ending in DROP TABLE / containing a column-dropping rebuild); every history becomes a migration directory in which the last file is written by hand and, where the evolution can be expressed as a desired schema, also by the real `atlas migrate diff` (earlier files hand-written); x --latest N for every N<=depth (and, for --latest 1, the hand-written file saved with CR LF line endings below 200 comment lines); the line number atlas prints for each diagnostic must be the line its byte position is on; the file-level error of each file report follows the file's own diagnostics; the real `atlas migrate lint` runs against a real SQLite dev database; states de-duplicated by the canonical schema model for expansion; non-trivial = every directory; distinct = (history, producer, N)", depth)
 	r.Assumptions = []string{
 		"a file is destructive iff it removes a table or a non-virtual column that existed before the file (reference model of the evolution)",
 		"for a table rebuild the diagnostic position is the first statement of the CREATE/INSERT/DROP/RENAME group, as sqlitecheck documents",
